@@ -31,6 +31,9 @@ N_HIST = {"quick": 40, "thorough": 400}
 # --------------------------------------------------------------------------- helpers
 
 
+HEADER_WORDS = ("expr", "key", "keyeq", "eq")
+
+
 def canon(line: str) -> str:
     t = line.split()
     if t and t[0] == "ls":
@@ -44,7 +47,7 @@ def run_history_real(H, table, lines, rng, cuts=None, nchunks=4):
     with H.RealRunner(table, nchunks=nchunks) as r:
         r.cut_chooser = cuts
         for line in lines:
-            if line.split()[0] in ("expr", "key"):
+            if line.split()[0] in HEADER_WORDS:
                 continue
             o = r.run_line(line, rng)
             if o is not None:
@@ -181,7 +184,7 @@ def gen_history(H, X, rng, fams, idx: int, nchunks: int = 4):
             try:
                 o = r.run_line(line, file_rng)
             except H.SchedulerStuck as e:
-                e.lines = [x for x in lines if not x.startswith(("expr", "key"))]
+                e.lines = [x for x in lines if not x.startswith(("expr", "key", "eq "))]
                 raise
             if o is not None:
                 replies.append(o)
@@ -332,6 +335,14 @@ class C16Property:
             chk.broken_correspondence("variant-inference", "".join(traceback.format_exception(type(e), e, e.__traceback__))[-900:])
 
         phase("pickle probe + variant inference")
+        # --- 3b. the premise of C16_safe about the key comparison (World.KeyOk), on the real `==`
+        try:
+            self.key_equality_obligation(chk, X, S, fams, failing)
+        except common.InfraError:
+            raise
+        except Exception as e:  # noqa: BLE001
+            chk.broken_correspondence("key-equality-obligation", "".join(traceback.format_exception(type(e), e, e.__traceback__))[-900:])
+        phase("key-equality obligation")
         # --- 4. correspondence
         try:
             self.correspondence(chk, H, X, rng, fams, variant, tier, failing)
@@ -348,7 +359,8 @@ class C16Property:
         srng = common.rng_for("C16", seed, "search")
         try:
             sel = fams if deep else {k: fams[k] for k in ("width_phsp", "breakup_assumptions", "pick_larger", "single_kallen",
-                                                          "odd_names_assumptions", "odd_names", "width_named")}
+                                                          "odd_names_assumptions", "odd_names", "width_named",
+                                                          "width_bound_methods", "rule_callables")}
             for f in S.sequential(chk, srng, None if deep else 12, sel, modes=("sha", "seed0", "seed424242") if deep else ("sha", "seed0")):
                 failing.append(({"class": f["what"]}, {"input": f}))
         except common.InfraError:
@@ -357,8 +369,11 @@ class C16Property:
             failing.append(({"class": "oracle crashed"}, {"input": {"what": "the sequential oracle itself failed", "error": "".join(traceback.format_exception(type(e), e, e.__traceback__))[-1200:]}}))
         try:
             sel1 = {k: fams[k] for k in (fams if deep else ("width_phsp", "breakup_assumptions", "pick_larger", "single_kallen",
-                                                            "odd_names_assumptions", "width_named"))}
+                                                            "odd_names_assumptions", "width_named",
+                                                            "width_partials", "width_classmethods", "rule_bound_methods"))}
             for f in S.one_process_histories(chk, srng, sel1, modes=("sha", "seed0")):
+                failing.append(({"class": f["what"]}, {"input": f}))
+            for f in S.pair_histories(chk, srng, X.callable_families()):
                 failing.append(({"class": f["what"]}, {"input": f}))
             dfails, dinfo = S.default_directory(chk)
             chk.info("default_directory", dinfo)
@@ -432,6 +447,95 @@ class C16Property:
         if p.returncode != 0 and "unknown" not in (p.stdout + p.stderr).lower():
             chk.broken.append({"kind": "proof", "theorem": "<leanchecker>", "detail": (p.stdout + p.stderr)[-400:]})
 
+    def key_equality_obligation(self, chk, X, S, fams, failing):
+        """The premise `World.KeyOk` of C16_safe, with the REAL key comparison: for every ordered pair
+        (a, b) of corpus expressions, `a == b` (same process) or `pickle-round-trip(a) == b` (the stored
+        key meeting a request, as perform_cached_doit evaluates it) must imply that a.doit() and
+        b.doit() are structurally identical.  `==`/`hash` of @unevaluated expressions are decided by
+        the decorator's _hashable_content/_get_hashable_object: they are code under test, not a given.
+        A violated premise = broken correspondence (C16_safe does not apply to this tree;
+        C16_witness_key_equality is the model's counterexample) → the two expressions go to the
+        search on the real function."""
+        import itertools
+        import shutil
+        import tempfile
+        from pathlib import Path
+
+        corpus = []
+        groups = [("verdict", {**fams, **X.unpicklable_callable_families()}), ("observation", X.known_confusion_families())]
+        for status, g in groups:
+            for fam, exprs in g.items():
+                for i, e in enumerate(exprs):
+                    try:
+                        stored = pickle.loads(pickle.dumps(e))
+                    except Exception:  # noqa: BLE001
+                        stored = None
+                    corpus.append({"status": status, "family": fam, "index": i, "expr": e, "doit": e.doit(), "stored": stored})
+        st = {"expressions": len(corpus), "ordered_pairs": 0, "equal_direct": 0, "equal_stored_vs_request": 0,
+              "equal_hash_different_doit": 0, "equal_str_different_doit": 0, "unpicklable": sum(c["stored"] is None for c in corpus),
+              "stored_key_not_equal_to_itself": sorted({c["family"] for c in corpus if c["stored"] is not None and not c["stored"] == c["expr"]}),
+              "violations": 0}
+        violations, observations = [], []
+        for a, b in itertools.permutations(corpus, 2):
+            st["ordered_pairs"] += 1
+            direct = bool(a["expr"] == b["expr"])
+            stored = bool(a["stored"] == b["expr"]) if a["stored"] is not None else False
+            st["equal_direct"] += direct
+            st["equal_stored_vs_request"] += stored
+            near = a["family"] == b["family"]
+            same = None
+            if direct or stored or near:
+                same = X.deep_equal(a["doit"], b["doit"])
+                if near and not same:
+                    st["equal_str_different_doit"] += str(a["expr"]) == str(b["expr"])
+                    st["equal_hash_different_doit"] += hash(a["expr"]) == hash(b["expr"])
+            chk.count(("keyeq", a["family"], a["index"], b["family"], b["index"]) if near else None)
+            if (direct or stored) and not same:
+                rec = {"a": f"{a['family']}[{a['index']}]", "b": f"{b['family']}[{b['index']}]", "str_a": str(a["expr"])[:120],
+                       "str_b": str(b["expr"])[:120], "a == b": direct, "unpickled(a) == b": stored,
+                       "hash(a) == hash(b)": hash(a["expr"]) == hash(b["expr"]),
+                       "a.doit()": str(a["doit"])[:160], "b.doit()": str(b["doit"])[:160]}
+                if "observation" in (a["status"], b["status"]):
+                    observations.append({**rec, "known_finding": "C10: a class is represented by its qualified name "
+                                         "(_get_hashable_object); two classes of one module.qualname are identified"})
+                else:
+                    st["violations"] += 1
+                    violations.append((rec, a, b))
+        chk.info("key_equality_obligation", st)
+        chk.info("observations", observations[:4])
+        if not violations:
+            return
+        for rec, _, _ in violations[:3]:
+            chk.broken_correspondence(
+                "C16_safe premise World.KeyOk", {
+                    "obligation": "a == b (or stored key == request) implies a.doit() identical to b.doit()", **rec,
+                    "meaning": "the key comparison of perform_cached_doit identifies two expressions with different unfoldings; "
+                               "C16_safe does not apply (Lean: C16_witness_key_equality)", "violations_total": len(violations)})
+        # search on the real function with the violating pairs (one process; later processes: S.pair_histories)
+        from ampform.sympy import perform_cached_doit as fn
+        from tools.corr.C16_harness import hash_mode
+
+        root = Path(tempfile.mkdtemp(prefix="c16keq_"))
+        try:
+            done = set()
+            for rec, a, b in violations:
+                if a["stored"] is None or b["stored"] is None or (a["family"], b["family"]) in done or len(done) >= 4:
+                    continue
+                done.add((a["family"], b["family"]))
+                for mode in ("sha", "seed0"):
+                    d = Path(tempfile.mkdtemp(prefix="d", dir=root))
+                    with hash_mode(mode):
+                        for step, c in enumerate((a, b, a, b)):
+                            res = S._check_call(fn, c["expr"], c["doit"], d)
+                            if res and res.get("observed") != "skipped":
+                                failing.append(({"class": "key comparison identifies expressions with different unfoldings: the second one is served the first one's record"},
+                                                {"input": {"what": "a then b then a then b through one fresh directory, one process",
+                                                           "pair": rec, "mode": mode, "failed_step": step, **res,
+                                                           "lean_witness": "Ampverif.Props.C16.C16_witness_key_equality"}}))
+                                break
+        finally:
+            shutil.rmtree(root, ignore_errors=True)
+
     def probe_pickle(self, chk, X, fams):
         """Model assumption: a strict prefix of a record never loads; trailing bytes are ignored."""
         n = bad = 0
@@ -488,7 +592,7 @@ class C16Property:
             dist["ops"] += nops
             chk.count(("hist", "\n".join(lines)) if nontrivial else None, nops)
             if i < 2:
-                chk.sample({"history": [x for x in lines if not x.startswith(("expr", "key"))][:40], "real_replies": replies[:40],
+                chk.sample({"history": [x for x in lines if not x.startswith(("expr", "key", "eq "))][:40], "real_replies": replies[:40],
                             "expressions": [str(e) for e in table.exprs], "meta": {k: v for k, v in meta.items()}})
         # b) a caller dies after exactly k bytes
         crash_ks = []
@@ -498,7 +602,7 @@ class C16Property:
             except H.SchedulerStuck as e:
                 failing.append(({"class": "scripted history: a call got stuck"},
                                 {"input": {"what": f"a caller died after {k} of {n} bytes; a later call did not advance",
-                                           "history": [x for x in lines if not x.startswith(("expr", "key"))], "error": str(e)}}))
+                                           "history": [x for x in lines if not x.startswith(("expr", "key", "eq "))], "error": str(e)}}))
                 chk.broken_correspondence("history", {"kind": f"crash after {k} bytes", "error": str(e)})
                 break
             batch_hist.append(lines)
@@ -524,7 +628,7 @@ class C16Property:
                         {"input": {"what": "scripted directory history on the real perform_cached_doit (scheduler)",
                                    "kind": meta["kind"], "expressions": [str(x) for x in table.exprs],
                                    "expression_assumptions": [sorted((str(s), sorted(k for k, v in s.assumptions0.items() if v)) for s in x.free_symbols) for x in table.exprs],
-                                   "history": [x for x in lines if not x.startswith(("expr", "key"))],
+                                   "history": [x for x in lines if not x.startswith(("expr", "key", "eq "))],
                                    "reply": rep, "expected": want, "exceptions": meta["excs"][:3]}}))
                     break
         # d) the model on the same histories
@@ -541,7 +645,7 @@ class C16Property:
                     chk.broken_correspondence("history", {
                         "kind": meta["kind"], "first_difference_at_op": i, "op": ops[i] if i < len(ops) else None,
                         "real": a[i] if i < len(a) else None, "model": b[i] if i < len(b) else None,
-                        "history": [x for x in lines if not x.startswith(("expr", "key"))][: i + 3],
+                        "history": [x for x in lines if not x.startswith(("expr", "key", "eq "))][: i + 3],
                         "expressions": [str(x) for x in meta["table"].exprs]})
         chk.info("histories_compared", len(batch_hist))
         chk.info("history_mismatches", mism)
@@ -632,7 +736,9 @@ ASSUMPTIONS = [
     "OS: a file write is visible to readers as a prefix-extension in write order (model: token-by-token; real buffered I/O shows a subset of these states)",
     "pickle: every strict prefix of pickle.dumps((expr, result)) fails to load with an Exception; bytes after STOP are ignored (probed on every record of the run)",
     "callers that run concurrently have distinct os.getpid() (threads of one process and processes in different pid namespaces sharing the directory do NOT: C16_witness_shared_temp)",
-    "expr.doit() is deterministic and SymPy == separates the expressions of interest (symbol assumptions, non-SymPy attributes): executed, not modelled",
+    "expr.doit() is deterministic: executed, not modelled. The key comparison `cached_key == expr` (SymPy == through the decorator's "
+    "_hashable_content) is a parameter of the model (World.keyEq) tabulated from the real == per history; the premise of C16_safe about it "
+    "(a == b implies equal unfoldings) is an obligation checked on every ordered pair of corpus expressions on every run",
     "directory entries are regular files or absent (a sub-directory under the cache/temp file name makes the function raise: recorded as outside_model_observations)",
     "the directory holds only 'honest' files: nothing that loads as (expr, X) with X != expr.doit() was planted",
 ]
